@@ -312,14 +312,18 @@ bool KDTree<CoordType, ValueType>::delete_node(Node* n) {
   bool was_leaf_node = true;
   while (n->before || n->after_or_equal) {
     was_leaf_node = false;
-    Node* target;
-    if (n->before) {
-      target = KDTree::find_subtree_min_max(n->before, n->dim, true);
-    } else if (n->after_or_equal) {
-      target = KDTree::find_subtree_min_max(n->after_or_equal, n->dim, false);
-    } else {
-      throw std::logic_error("node is a leaf but still claims to be movable");
+    // always promote the minimum (along this node's dimension) of the
+    // after_or_equal side: everything left on that side is still >= the new
+    // split point, and everything on the before side is still strictly less.
+    // promoting the maximum of the before side is wrong when several points
+    // share that maximum coordinate - the others would stay on the before side
+    // of an equal coordinate and become unreachable. if there is only a before
+    // side, it becomes the after_or_equal side of its own minimum
+    if (!n->after_or_equal) {
+      n->after_or_equal = n->before;
+      n->before = nullptr;
     }
+    Node* target = KDTree::find_subtree_min_max(n->after_or_equal, n->dim, false);
     n->pt = target->pt;
     n->value = std::move(target->value);
     n = target;
